@@ -22,6 +22,7 @@ macro_rules! unit {
 }
 
 unit!(arena, "/verif/units/arena/harness.rs", { pub use intern::verif_hooks::*; });
+unit!(lsp_positions, "/verif/units/lsp_positions/harness.rs", { pub use isograph_lsp::verif_hooks::*; });
 
 fn main() {
     let args: Vec<String> = std::env::args().collect();
@@ -38,6 +39,7 @@ fn main() {
     let name = args[2].clone();
     let r = std::panic::catch_unwind(std::panic::AssertUnwindSafe(|| match unit.as_str() {
         "arena" => arena::harness::dispatch(&name, &mut src),
+        "lsp_positions" => lsp_positions::harness::dispatch(&name, &mut src),
         _ => false,
     }));
     match r {
